@@ -156,7 +156,7 @@ __wrap_crypto_entropy_read(uint8_t * buf, size_t len)
 
 /* ---- scripted /dev/urandom (C11) ---- */
 static int ur_fd = -1;
-static struct { int kind; long n; } ur_script[4096];	/* kind: 0 ok-full, 1 short(n), 2 error, 3 eof, 4 open-fails */
+static struct { int kind; long n; } ur_script[4096];	/* kind: 0 ok-full, 1 short(n), 2 error (EIO), 3 eof, 4 open-fails, 5 error (EINTR) */
 static int ur_n, ur_h;
 static uint64_t ur_ctr;
 int __real_open(const char *, int, ...);
@@ -188,7 +188,7 @@ __wrap_read(int fd, void * buf, size_t len)
 	if (fd != ur_fd || ur_fd < 0)
 		return (__real_read(fd, buf, len));
 	if (ur_h < ur_n) { kind = ur_script[ur_h].kind; if (kind == 1 && ur_script[ur_h].n < n) n = ur_script[ur_h].n; ur_h++; }
-	if (kind == 2) { vt_begin("entropy"); vt_str("op", "read"); vt_bool("ok", 0); vt_int("len", (long long)len); vt_end(); errno = EIO; return (-1); }
+	if (kind == 2 || kind == 5) { vt_begin("entropy"); vt_str("op", "read"); vt_bool("ok", 0); vt_int("len", (long long)len); vt_end(); errno = (kind == 5) ? EINTR : EIO; return (-1); }
 	if (kind == 3) { vt_begin("entropy"); vt_str("op", "eof"); vt_bool("ok", 0); vt_int("len", (long long)len); vt_end(); return (0); }
 	if (n < 1) n = 1;
 	for (i = 0; i < n; i++) { ur_ctr = ur_ctr * 6364136223846793005ULL + 1442695040888963407ULL; ((uint8_t *)buf)[i] = (uint8_t)(ur_ctr >> 56); }
@@ -568,6 +568,7 @@ do_drbg(char * l)
 			case 'x': ur_script[ur_n].kind = 2; p++; break;
 			case 'e': ur_script[ur_n].kind = 3; p++; break;
 			case 'o': ur_script[ur_n].kind = 4; p++; break;
+			case 'i': ur_script[ur_n].kind = 5; p++; break;
 			default: p++; continue;
 			}
 			ur_n++;
